@@ -93,6 +93,20 @@ def apply_ops(structure, ops):
         elif k == "scale":
             f = op["f"]
             s = rebuild(s, coord_fn=lambda ri, p: p * f)
+        elif k == "append-nucleotide":
+            # a copy of the first nucleotide, moved 60 A away, appended at the END of the residue list under the same chain
+            # with a number `number_below_first` below the first one (a nucleotide ligand listed after the polymer)
+            from rnapolis import tertiary
+            from rnapolis.common import ResidueAuth, ResidueLabel
+
+            nts = [r for r in s.residues if r.is_nucleotide and r.auth is not None]
+            if nts:
+                r0 = nts[0]
+                num = r0.auth.number - op["number_below_first"]
+                auth = ResidueAuth(r0.auth.chain, num, None, r0.auth.name)
+                lab = ResidueLabel(r0.label.chain, (r0.label.number or 0) - op["number_below_first"], r0.label.name) if r0.label is not None else None
+                atoms = tuple(tertiary.Atom(a.entity_id, lab, auth, a.model, a.name, a.x + 60.0, a.y + 60.0, a.z, a.occupancy) for a in r0.atoms)
+                s = tertiary.Structure3D(list(s.residues) + [tertiary.Residue3D(lab, auth, r0.model, r0.one_letter_name, atoms)])
         elif k == "copies":
             # n copies of the structure far from one another (a crystal-like assembly), chains renamed per copy
             from rnapolis import tertiary
